@@ -35,21 +35,26 @@ func newAuthFixture(dir string, useAuth, profiling, metrics bool) (*authFixture,
 	f := &authFixture{Calls: &callCounter{}, Admin: "adm-" + strings.Repeat("x", 12)}
 	stack.RemoveDB(dir + "/bhs.db")
 	prof := profiling
-	s, err := stack.New(stack.Options{Dir: dir, UseAuth: useAuth, AdminToken: f.Admin, Profiling: &prof, Metrics: metrics, Websocket: true, WrapServices: wrapAll(f.Calls)})
+	// fill the store through a stack without notification channels (no asynchronous webhook bookkeeping later)
+	s0, err := stack.New(stack.Options{Dir: dir})
 	if err != nil {
 		return nil, err
 	}
-	f.S = s
-	// a small store with a fork
 	g := hist.Genesis()
 	a := model.Header{Version: 1, Prev: g.Hash, Merkle: hist.MerkleOf(1), Timestamp: 1600000001, Bits: 0x1d00ffff, Nonce: 1}
 	b := model.Header{Version: 1, Prev: a.Hash(), Merkle: hist.MerkleOf(2), Timestamp: 1600000002, Bits: 0x1d00ffff, Nonce: 2}
 	c := model.Header{Version: 1, Prev: g.Hash, Merkle: hist.MerkleOf(3), Timestamp: 1600000003, Bits: 0x1d00ffff, Nonce: 3}
 	for _, h := range []model.Header{a, b, c} {
-		if _, err := s.Services.Chains.Add(hist.ToSource(h)); err != nil {
+		if _, err := s0.Services.Chains.Add(hist.ToSource(h)); err != nil {
 			return nil, err
 		}
 	}
+	s0.Close()
+	s, err := stack.New(stack.Options{Dir: dir, UseAuth: useAuth, AdminToken: f.Admin, Profiling: &prof, Metrics: metrics, Websocket: true, WrapServices: wrapAll(f.Calls)})
+	if err != nil {
+		return nil, err
+	}
+	f.S = s
 	f.LongHash, f.Genesis, f.Merkle = model.HashStr(b.Hash()), model.HashStr(g.Hash), model.HashStr(a.Merkle)
 	for _, p := range []*string{&f.User, &f.Victim, &f.Revoked} {
 		t, err := s.Services.Tokens.GenerateToken()
